@@ -900,6 +900,14 @@ func returnsCutOf(p *Prog, fn *ssa.Function, par *ssa.Parameter) bool {
 			return fromPar(x.X, d+1)
 		case *ssa.Extract:
 			return fromPar(x.Tuple, d+1)
+		case *ssa.Call:
+			if sc := x.Call.StaticCallee(); sc != nil && p.InUniverse(sc) {
+				for _, a := range x.Call.Args {
+					if _, isSlice := a.Type().Underlying().(*types.Slice); isSlice && fromPar(a, d+1) {
+						return true
+					}
+				}
+			}
 		}
 		return false
 	}
@@ -924,6 +932,15 @@ func returnsCutOf(p *Prog, fn *ssa.Function, par *ssa.Parameter) bool {
 			walk(x.Tuple, d+1)
 		case *ssa.Const, *ssa.MakeSlice:
 			found = true
+		case *ssa.Call:
+			// the cut is made by a helper of this helper (`next, pending = dequeue(pending)`)
+			if sc := x.Call.StaticCallee(); sc != nil && sc != fn && p.InUniverse(sc) && sc.Blocks != nil && d < 6 {
+				for i, a := range x.Call.Args {
+					if i < len(sc.Params) && fromPar(a, 0) && returnsCutOf(p, sc, sc.Params[i]) {
+						found = true
+					}
+				}
+			}
 		}
 	}
 	for _, b := range fn.Blocks {
